@@ -4,7 +4,7 @@
    it is what the correspondence check establishes on every run.  The theorems
    are the structural laws the property names, for arbitrary sub-expressions,
    and the independence of the answer from the fuel. *)
-From YQ Require Import Base.Str Model.Node Model.Store Model.Eval Proofs.EvalLaws Proofs.EvalFuel.
+From YQ Require Import Base.Str Model.Node Model.Store Model.Eval Proofs.EvalLaws Proofs.EvalFuel Proofs.EvalTotal.
 
 (* `|` composes *)
 Theorem C01_pipe_composes : forall f l r ro vs ctx st,
@@ -68,6 +68,15 @@ Theorem C01_fuel_independent : forall f f' e ro vs ctx st r,
   (f <= f')%nat -> eval f e ro vs ctx st = r -> r <> OutOfFuel -> eval f' e ro vs ctx st = r.
 Proof. exact eval_fuel_mono. Qed.
 Print Assumptions C01_fuel_independent.
+
+(* ... and fuel equal to the nesting depth of the expression is always sufficient: the evaluator
+   terminates on every expression, document, context and variable environment (also the
+   evaluator-level part of C11: never a hang; its outcome is a result list, an error, or an
+   explicitly modelled panic site) *)
+Theorem C01_fuel_sufficient : forall f e ro vs ctx st,
+  (depth e <= f)%nat -> eval f e ro vs ctx st <> OutOfFuel.
+Proof. exact eval_fuel_sufficient. Qed.
+Print Assumptions C01_fuel_sufficient.
 
 (* non-vacuity: a multi-result product, left-major, and an error defined by the semantics *)
 Example C01_example_product :
